@@ -1,7 +1,27 @@
-(* C07 — Mint crash consistency: a crash at any point never inflates or strands value
-   Statements only; every proof is `exact <lemma>` into Mint/*.v (model: Mint/Model.v, semantics: Mint/Sem.v). *)
+(* C07 - Mint crash consistency: a crash at any point never inflates or strands value
+   Statements only; every proof is `exact <lemma>` into coq/Mint/*.v.
+
+   Reading guide (definitions in coq/Mint/*.v):
+     world            = store (tables spent/pending/signatures/mint quotes/melt quotes/keysets) + Lightning environment
+                        (invoices, scripted answers, log of pay calls) + the process memory (keysets, active keyset)
+     op               = one request (OSwap, OMint, OMelt, OMeltQuote, OMintQuote, OMintState, OMeltState, OCheck, ORestore,
+                        ORotate, ORestart, OWatcher, OBalance, OInfo) or environment step (ESettle, EScriptPay/Look, ...)
+     op_prog          = the request as a program over storage/Lightning calls, following mint/mint.go call by call
+     run p f w        = run program p from world w; f: which call positions get an injected storage error (no_fault: none)
+     run_n n p f w    = the same, but the process dies after n calls
+     step cfg f w o   = one request run to completion; run_history / reach: a sequential fault-free history from the empty store
+     hrun cfg w h     = a history of items: HNormal o | HFault o f | HCrash o n | HConc ops schedule (interleaving at call granularity)
+     WInv w           = every table has unique keys (Y, B_, quote ids, keyset ids)
+     Good w           = WInv w and no Y is both spent and pending
+     wext w w'        = spent and signature tables of w' extend those of w (nothing removed or altered)
+     same_but_calls   = nothing changed but the call counter
+     settled w h      = the backend reports the own invoice with payment hash h as settled
+
+   The last four are refutations: computed cuts of the model at which value is inflated / stranded / the mint cannot start;
+   the c07-cuts stream replays them (and every other cut) on the real mint; they are listed in known_findings.json.
+*)
 From Coq Require Import ZArith List Bool.
-From Verif Require Import Model Sem InvDb InvSwap InvMint InvMelt Corollaries Queries Footprint Global GlobalQuote Cuts.
+From Verif Require Import Model Sem InvDb InvSwap InvMint InvMelt Corollaries Queries Footprint HRel Global GlobalQuote GlobalValue GlobalErr GlobalQuery GlobalMelt GlobalKeys Cuts.
 Import ListNotations.
 Open Scope Z_scope.
 
@@ -44,12 +64,21 @@ Theorem C07_cut_signs_only_when_issuing : forall (cfg : config) (mem_ks : list k
 Proof. exact @cut_signs_only_when_issuing. Qed.
 Print Assumptions C07_cut_signs_only_when_issuing.
 
+Theorem C07_keysets_never_lost : forall (cfg : config) (h : list hitem) (w : world), ks_ext (d_ks (w_db w)) (d_ks (w_db (hrun cfg w h))).
+Proof. exact @keysets_never_lost. Qed.
+Print Assumptions C07_keysets_never_lost.
+
+Theorem C07_quotes_never_altered : forall (cfg : config) (h : list hitem) (w : world), quotes_ext w (hrun cfg w h).
+Proof. exact @quotes_never_altered. Qed.
+Print Assumptions C07_quotes_never_altered.
+
 Theorem C07_spent_stays_refused : forall (cfg : config) (h : list hitem) (w : world) (ins : list proof) (outs : list bmsg) (sg : bool),
        WInv w ->
        (exists p : proof, In p ins /\ In (p_secret p) (ys_of (d_spent (w_db w)))) ->
        let w' := hrun cfg w h in
        (exists (w'' : world) (e : err),
-          run (swap (w_mem w') (w_active w') ins outs sg) no_fault w' = (w'', Done (Err e)) /\ same_but_calls w' w'') /\
+          run (swap (w_mem w') (w_active w') ins outs sg) no_fault w' = (w'', Done (Err e)) /\
+          same_but_calls w' w'') /\
        (forall id : Z,
         exists (w'' : world) (e : err),
           run (melt_tokens cfg (w_mem w') id ins) no_fault w' = (w'', Done (Err e)) /\
@@ -63,6 +92,16 @@ Theorem C07_stored_signature_stays_restorable : forall (cfg : config) (h : list 
        exists w' : world, run (restore_sigs [s_B row] []) no_fault (hrun cfg w h) = (w', Done (Ok [row])).
 Proof. exact @stored_signature_stays_restorable. Qed.
 Print Assumptions C07_stored_signature_stays_restorable.
+
+Theorem C07_request_run_never_panics : forall (cfg : config) (mem_ks : list ksrow) (active : Z) (o : op),
+       match o with
+       | ORotate _ | ORestart _ _ => False
+       | _ => True
+       end ->
+       (forall (f : oracle) (w : world), snd (run (op_prog cfg mem_ks active o) f w) <> Panicked) /\
+       (forall (n : nat) (f : oracle) (w : world), snd (run_n n (op_prog cfg mem_ks active o) f w) <> Panicked).
+Proof. exact @request_run_never_panics. Qed.
+Print Assumptions C07_request_run_never_panics.
 
 Theorem C07_crash_in_settle_inflates : let w := hrun cfg0 world0 cut_melt_history in
        issuedZ w = 128 /\
